@@ -490,7 +490,7 @@ Lemma ciba_grant_5xx w n now r st :
   is_internal (snd (run_seq (ciba_grant w n now r) st)) = true -> t_hg r = HgFail \/ t_ba r = BaFail.
 Proof.
   unfold ciba_grant. repeat (break_goal; [solve [done]|]). past_auth.
-  destruct (t_hg r); [| |left; reflexivity]; (destruct (t_ba r); [| | | |right; reflexivity]); crunch0; done.
+  destruct (t_hg r); [| |left; reflexivity]; (destruct (t_ba r); [| | | |right; reflexivity|]); crunch0; done.
 Qed.
 Lemma introspect_5xx w now r st : is_internal (snd (run_seq (introspect w now r) st)) = false.
 Proof.
